@@ -6,6 +6,7 @@ import (
 	"go/token"
 	"go/types"
 	"sort"
+	"strings"
 
 	"golang.org/x/tools/go/ssa"
 
@@ -809,4 +810,47 @@ func c11Locks(l *core.Ledger, r *rt) {
 		}
 	}
 	l.Floor("C11-K6", n, 10, "accesses to guarded Correctable fields")
+	// state that is published through an atomic (a snapshot pointer read without the lock) must be
+	// stored before anybody is released: who wakes up from Done() or a Watch channel reads it at once
+	for _, f := range allFuncs(l.Prog, r.pkg) {
+		if f.Signature.Recv() == nil || !isNamed(f.Signature.Recv().Type(), core.RootModule, "Correctable") {
+			continue
+		}
+		var stores, closes []ssa.Instruction
+		sx.AllInstrs(f, func(_ sx.Node, in ssa.Instruction) {
+			c, ok := in.(*ssa.Call)
+			if !ok {
+				return
+			}
+			if b, isB := c.Call.Value.(*ssa.Builtin); isB && b.Name() == "close" {
+				closes = append(closes, c)
+				return
+			}
+			name := sx.StaticCalleeName(&c.Call)
+			if sc := c.Call.StaticCallee(); sc != nil {
+				name = sc.String()
+			}
+			if i := strings.LastIndex(name, ")."); i >= 0 {
+				// an instantiated generic method: (*sync/atomic.Pointer[T]).Store[T]
+				if j := strings.Index(name[i:], "["); j >= 0 {
+					name = name[:i+j]
+				}
+			}
+			if strings.Contains(name, "sync/atomic") && (strings.HasSuffix(name, ".Store") || strings.Contains(name, "atomic.Store") || strings.HasSuffix(name, ".Swap") || strings.HasSuffix(name, ".CompareAndSwap")) && len(c.Call.Args) > 0 {
+				if fa, isFA := c.Call.Args[0].(*ssa.FieldAddr); isFA && isNamed(fa.X.Type(), core.RootModule, "Correctable") {
+					stores = append(stores, c)
+				}
+			}
+		})
+		for i, s := range stores {
+			late := false
+			for _, c := range closes {
+				if _, reach := sx.Reach(sx.NodeOf(c), sx.IsInstr(s), sx.Query{}); reach {
+					late = true
+				}
+			}
+			l.Check(!late, "C11-K6", fmt.Sprintf("%s/atomic-publication#%d", fnKey(f), i), s.Pos(), "the state is stored before anybody is released",
+				"the Correctable's state is published through an atomic store that can come after the close of Done or of a Watch channel: a goroutine released by that close reads the state without the lock and still sees the old level and value - Watch(l) returns and Get shows a level below l, Done is closed and Get changes afterwards")
+		}
+	}
 }
